@@ -200,6 +200,69 @@ def gen_stall_shutdown(rng, n):
     return out
 
 
+def gen_smallcap_flush(rng, n):
+    """C01: single producer (unambiguous linearization), small capacity, slow stream and flush requests
+    pending while a backlog flows through: every entry still reaches the stream exactly once"""
+    out = []
+    for i in range(n):
+        cap = rng.choice([8, 16, 33, 40])
+        out.append({"cap": cap, "boxed": rng.random() < 0.5, "flush_us": rng.choice([500, 1000, 5000]),
+                    "producers": [{"n": rng.randint(3 * cap, 6 * cap), "pace_us": rng.choice([20, 40, 80])}],
+                    "results": {}, "slow_us": rng.choice([20, 40]),
+                    "flushers": [{"count": rng.randint(3, 8), "delay_us": rng.randint(0, 1000), "gap_us": rng.randint(0, 300)}
+                                 for _ in range(rng.randint(1, 2))],
+                    "end": "drop", "kind": "smallcap-flush"})
+    return out
+
+
+def gen_report_burst(rng, n):
+    out = []
+    for i in range(n):
+        nb = rng.randint(20, 40)
+        res = {str(70001 + k): "val" for k in range(nb + 1)}
+        out.append({"cap": 256, "boxed": rng.random() < 0.5, "flush_us": 1000, "producers": [{"n": 3, "pace_us": 0}],
+                    "results": res, "flushers": [], "end": "drop", "report_burst": {"quiet_ms": rng.choice([2300, 3300]), "n": nb},
+                    "kind": "report-burst"})
+    return out
+
+
+def gen_slowflush_busy(rng, n):
+    """C04: requests arriving while the writer is inside the (slow) stream.flush() that releases an
+    earlier request, with a backlog > 32 and drains that hit the flush deadline"""
+    out = []
+    for i in range(n):
+        out.append({"cap": rng.choice([128, 256]), "boxed": rng.random() < 0.5, "flush_us": rng.choice([300, 500]),
+                    "flush_slow_us": rng.choice([1500, 3000, 6000]), "slow_us": rng.choice([10, 20]),
+                    "producers": [{"n": rng.randint(300, 500), "pace_us": rng.choice([5, 10, 20])}], "results": {},
+                    "flushers": [{"count": rng.randint(4, 8), "delay_us": rng.randint(0, 2000), "gap_us": 0}
+                                 for _ in range(rng.randint(1, 2))]
+                                + [{"count": rng.randint(12, 25), "delay_us": rng.randint(0, 1000), "gap_us": rng.choice([300, 700, 1500]),
+                                    "fire": True}],
+                    "end": "drop", "kind": "slowflush-busy"})
+    return out
+
+
+def gen_flush_storm(rng, n):
+    """C04: more flush requests outstanding at once than any internal bound (writer stalled)"""
+    return [{"cap": 16, "boxed": rng.random() < 0.5, "flush_us": 1000, "producers": [{"n": 3, "pace_us": 0}], "results": {},
+             "flushers": [], "stall": {"k": 1}, "flush_storm": rng.choice([1100, 1300]), "end": "drop", "kind": "flush-storm"}
+            for _ in range(n)]
+
+
+def gen_drop_variants(rng, n):
+    """C05: handle dropped by unwinding; forgotten queue with a never-polled flush future kept alive"""
+    out = []
+    for i in range(n):
+        prods = [{"n": rng.randint(20, 100), "pace_us": 0}]
+        if i % 2 == 0:
+            out.append({"cap": 256, "boxed": rng.random() < 0.5, "flush_us": 1000, "producers": prods, "results": {},
+                        "flushers": [], "slow_us": rng.choice([50, 200]), "end": "drop", "drop_unwind": True, "kind": "drop-unwind"})
+        else:
+            out.append({"cap": 256, "boxed": rng.random() < 0.5, "flush_us": rng.choice([1000, 5000]), "producers": prods,
+                        "results": {}, "flushers": [], "end": "forget", "hold_unpolled_flush": True, "kind": "forget-unpolled-flush"})
+    return out
+
+
 def gen_count_only(rng, n, per):
     out = []
     for i in range(n):
@@ -226,7 +289,7 @@ def tame(sc):
     return sc
 
 
-def run_recorded(chk, prop, scen, tag="rec", chunk=150, subscriber=False):
+def run_recorded(chk, prop, scen, tag="rec", chunk=150, subscriber=False, extra_args=None):
     """Run scenarios in the real code and validate their traces against QueueTrace.tla."""
     scen = [tame(s) for s in scen]
     counting = [s for s in scen if s.get("count_only")]
@@ -241,7 +304,7 @@ def run_recorded(chk, prop, scen, tag="rec", chunk=150, subscriber=False):
         tp = os.path.join(chk.dir, f"{tag}-{c0}-trace.ndjson")
         mp = os.path.join(chk.dir, f"{tag}-{c0}-meta.ndjson")
         vlib.write_ndjson(sp, part)
-        vlib.run_bin("bq", ["run", "--scenarios", sp, "--out", tp, "--meta", mp] + (["--subscriber", "1"] if subscriber else []),
+        vlib.run_bin("bq", ["run", "--scenarios", sp, "--out", tp, "--meta", mp] + (["--subscriber", "1"] if subscriber else []) + (extra_args or []),
                      timeout=3600)
 
         def on_reject(meta, v, lines):
@@ -507,10 +570,13 @@ def run(prop, tier):
     scen = GEN[prop](rng, NSCEN[tier][prop])
     q = tier == "quick"
     if prop == "C01":
-        scen += gen_forget_slowflush(rng, 6 if q else 60)
+        scen += gen_forget_slowflush(rng, 6 if q else 60) + gen_smallcap_flush(rng, 8 if q else 80) + gen_report_burst(rng, 1 if q else 4)
+    if prop == "C04":
+        scen += gen_slowflush_busy(rng, 10 if q else 80) + gen_flush_storm(rng, 1 if q else 4)
     if prop == "C05":
-        scen += gen_forget_slowflush(rng, 6 if q else 60) + gen_flush_faults(rng, 4 if q else 40) + gen_stall_shutdown(rng, 3 if q else 20)
+        scen += gen_forget_slowflush(rng, 6 if q else 60) + gen_flush_faults(rng, 4 if q else 40) + gen_stall_shutdown(rng, 3 if q else 20) + gen_drop_variants(rng, 4 if q else 40)
     if prop == "C09":
+        scen += gen_forget_slowflush(rng, 6 if q else 40)
         scen += gen_race_rounds(rng, 24 if q else 200, 50) + gen_pair_rounds(rng, 10 if q else 80, 60) + gen_count_only(rng, 3 if q else 30, 2400 if q else 12000)
     for i, s in enumerate(scen):
         s["id"] = i + 1
@@ -533,6 +599,16 @@ def run(prop, tier):
                         "results": dict(_results(rng, mid["producers"], 0.5, 0.0), **{"80001": "val", "80003": "val", "80005": "val"}),
                         "flushers": [], "permille": 0})
             run_recorded(chk, prop, [mid], tag=f"submid{j}")
+    if prop == "C09":
+        # queues reporting to the process-GLOBAL metrics recorder under their own `sink` label: several
+        # differently named queues are overflowed one after the other by the same (main) thread
+        glob = gen_race_rounds(rng, 4 if q else 20, 20) + gen_pair_rounds(rng, 2 if q else 10, 20)
+        for i, s in enumerate(glob):
+            s["id"] = 7000 + i
+            s["seed"] = chk.seed * 100000 + 7000 + i
+            s["cap"] = [1, 2, 3, 4][i % 4]
+            s["race_extra"] = 1 + i % 3
+        run_recorded(chk, prop, glob, tag="glob", extra_args=["--global-recorder", "1"])
     if prop == "C05":
         # the attach handle of a global sink backed by a queue: appenders racing with the handle drop
         import chk_globalsink as G
